@@ -5,6 +5,7 @@ package boltz
 import (
 	"context"
 	"errors"
+	"os"
 
 	"go.etcd.io/bbolt"
 
@@ -138,4 +139,118 @@ func VerifC17_SnapshotMarkers() {
 		return nil
 	})
 	verifrt.Assert(payload != nil && *payload == "state-A", "C17 the copy carries the content of the snapshot state")
+}
+
+// verifDumpData: the logical content without the metadata bucket (where the
+// snapshot operation records its markers).
+func verifDumpData(tx *bbolt.Tx) []vDumpEntry {
+	var out []vDumpEntry
+	depth := 0
+	skipping := false
+	for _, e := range verifDump(tx) {
+		d := len(e.path)
+		if skipping && d > depth {
+			continue
+		}
+		skipping = false
+		if d == 0 && e.bucket && string(e.key) == Metadata {
+			skipping, depth = true, 0
+			continue
+		}
+		out = append(out, e)
+	}
+	return out
+}
+
+// VerifC17_SnapshotRestoreRoundTrip: state A (symbolic entities with indexes),
+// the real Snapshot, a further committed transaction of any kind, the real
+// RestoreFromReader of the snapshot file: afterwards the logical content
+// (everything but the metadata markers) equals state A, the stores serve state
+// A again, the database reports the snapshot id that Snapshot returned, the
+// restore listener has fired, and the next timeline-id request yields a fresh
+// id exactly once.
+func VerifC17_SnapshotRestoreRoundTrip() {
+	db := &DbImpl{rootBucket: vRootPath}
+	verifrt.Assert(db.Open(verifrt.TempPath("live.db")) == nil, "C17 opening the live database succeeds")
+	env := &vEnv{raw: db.db, db: db}
+	env.dept = verifNewDeptStore()
+	env.emp = verifNewEmpStore(vStoreCfg{nickNullable: true}, env.dept)
+	err := env.db.Update(nil, func(ctx MutateContext) error {
+		h := &vErrHolder{}
+		env.dept.InitializeIndexes(ctx.Tx(), h)
+		env.emp.InitializeIndexes(ctx.Tx(), h)
+		return h.err
+	})
+	verifrt.Assert(err == nil, "C17 store initialisation succeeds")
+	// state A
+	nameA := verifrt.String("name", 1)
+	second := verifrt.Bool("second.present")
+	err = env.update(func(ctx MutateContext) error {
+		if err := env.emp.Create(ctx, &vEmp{Id: "a", Name: nameA, Roles: []string{"r1"}}); err != nil {
+			return err
+		}
+		if second {
+			return env.emp.Create(ctx, &vEmp{Id: "ab", Name: "N2", Roles: []string{"r1", "r2"}})
+		}
+		return nil
+	})
+	verifrt.Assert(err == nil, "C17 state A setup succeeds")
+	var stateA []vDumpEntry
+	env.view(func(tx *bbolt.Tx) { stateA = verifDumpData(tx) })
+	restored := 0
+	db.AddRestoreListener(func() { restored++ })
+
+	copyPath, snapId, err := db.Snapshot(verifrt.TempPath("copy.db"))
+	verifrt.Assert(err == nil && snapId != "", "C17 taking a snapshot succeeds")
+
+	// any further committed work
+	later := verifrt.Choose("later", 5)
+	nameB := verifrt.String("later.name", 1)
+	err = env.update(func(ctx MutateContext) error {
+		switch later {
+		case 1:
+			verifrt.Assume(nameB != nameA)
+			verifrt.Assume(nameB != "N")
+			return env.emp.Create(ctx, &vEmp{Id: "b", Name: nameB})
+		case 2:
+			return env.emp.DeleteById(ctx, "a")
+		case 3:
+			verifrt.Assume(nameB != "N")
+			return env.emp.Update(ctx, &vEmp{Id: "a", Name: nameB, Roles: []string{"r2"}}, nil)
+		case 4:
+			if err := env.emp.DeleteById(ctx, "a"); err != nil {
+				return err
+			}
+			if second {
+				return env.emp.DeleteById(ctx, "ab")
+			}
+		}
+		return nil
+	})
+	verifrt.Assert(err == nil, "C17 later transaction succeeds")
+
+	f, err := os.Open(copyPath)
+	verifrt.Assert(err == nil, "C17 the snapshot file can be opened")
+	panicked, msg := verifrt.Catch(func() { db.RestoreFromReader(f) })
+	_ = f.Close()
+	verifrt.Settle()
+	verifrt.Assert(!panicked, "C17 restoring the snapshot does not fail ("+msg+")")
+
+	env.view(func(tx *bbolt.Tx) {
+		verifrt.Assert(verifDumpEqual(stateA, verifDumpData(tx)), "C17 after the restore the logical content equals the state at snapshot time")
+		e, found, ferr := env.emp.FindById(tx, "a")
+		verifrt.Assert(ferr == nil && found && e.Name == nameA, "C17 the stores serve the snapshot state again")
+		_, found, _ = env.emp.FindById(tx, "b")
+		verifrt.Assert(!found, "C17 work committed after the snapshot is gone")
+	})
+	got, err := db.GetSnapshotId()
+	verifrt.Assert(err == nil && got != nil && *got == snapId, "C17 the restored database reports the snapshot id that Snapshot returned")
+	verifrt.Assert(restored == 1, "C17 restore listeners have fired once")
+	calls := 0
+	idF := func() (string, error) { calls++; return "fresh", nil }
+	id, err := db.GetTimelineId(TimelineModeDefault, idF)
+	verifrt.Assert(err == nil && id == "fresh" && calls == 1, "C17 after the restore the next timeline-id request returns a fresh id")
+	id, err = db.GetTimelineId(TimelineModeDefault, idF)
+	verifrt.Assert(err == nil && id == "fresh" && calls == 1, "C17 ... exactly once")
+	_ = db.Close()
 }
